@@ -92,6 +92,7 @@ def check_c16(prog, rep, tier, cfg):
     c16i(prog, rep)
     c16j(prog, rep)
     c16l(prog, rep)
+    c16m(prog, rep)
     # C16.k — every source file found under a directory is formatted like the same content from stdin: the walk drops an entry only
     # because it is not a formattable file, and the list of files is shortened only by an entry that names a file already in it
     # (shared with C18.f / C18.h)
@@ -828,6 +829,36 @@ def c16e(prog, rep):
     for c in exits:
         rep.check("pasfmt_orchestrator::command_line::" in c.body.npath and "create" in c.body.npath, R, "exit:%s" % short(c.body.npath),
                   "process exit outside argument parsing: %s" % short(c.body.npath), where=c.where(), instance={"exit_site": short(c.body.npath)})
+
+
+UTF8_VIEWS_OF_A_NAME = ("to_str", "to_string_lossy", "into_string", "to_string", "display")
+
+
+def c16m(prog, rep, R="C16.m"):
+    """C16.m — "every file the user names is formatted": which entries of a directory are source files is decided on the name as the
+    operating system gives it (an OsStr: `extension()`, `eq_ignore_ascii_case`).  Nothing in the path expansion (expand_paths, its
+    closures and helpers) looks at a name through a UTF-8 view (`to_str`, `to_string_lossy`, `into_string`, `display`): the fallible
+    one answers None for a name that is not valid UTF-8 — a legacy Latin-1 name such as `Gr\xf6\xdfe.pas` silently stops being a source
+    file — and the lossy one maps different names to one text."""
+    from util import family_bodies
+    root = prog.body(FF + "expand_paths")
+    if not rep.check(root is not None, R, "anchor:expand_paths", "expand_paths not found"):
+        return
+    bad, n = [], 0
+    for body, _a, _c in family_bodies(prog, root, depth=6):
+        if not body.crate.startswith("pasfmt") or "::tests::" in body.npath:
+            continue
+        for c in body.calls():
+            cal = c.callee or ""
+            nm = cal.split("::")[-1]
+            if cal.startswith("std::path::") or cal.startswith("std::ffi::os_str::"):
+                n += 1
+                if nm in UTF8_VIEWS_OF_A_NAME:
+                    bad.append("%s: %s" % (short(body.npath), cal))
+    rep.check(not bad, R, "names-are-judged-as-os-strings",
+              "the path expansion looks at a file name through a UTF-8 view (%s): a name that is not valid UTF-8 is then not recognised as a source file (or two names become one), the file is "
+              "silently left out of a directory walk, and check mode does not see it" % bad[:2], instance={"path_and_os_str_calls": n, "utf8_views": bad[:3]})
+    rep.floor(R, "Path / OsStr operations in the path expansion", n, 3)
 
 
 def c16f(prog, rep):
